@@ -280,6 +280,48 @@ def run(M, rep, tier, only=None):
     if not n7:
         rep.ok(R7, "mutating members", "no mutating member consults the open mode")
 
+    # ---------------- R8: what makes a mutating call on a read-only file fail is the error h5py raises for the write; the storage
+    # layer must let it through (re-raise, translate) -- a handler around a mutation that goes on quietly turns the refusal into
+    # a silent no-op
+    R8 = rep.rule("C11.R8", "the hdf5 layer never swallows the error of a mutation", floor=1,
+                  technique="every handler around a mutating h5py operation in the layer classes ends in a raise (syntax-directed walk)")
+    import ast as _ast
+    WR = {"create_dataset", "create_group", "require_dataset", "require_group", "resize", "copy", "move", "modify", "create",
+          "write_direct", "__delitem__", "__setitem__", "link", "unlink", "pop", "clear", "update", "flush"}
+    n8 = 0
+    for q, fn in sorted(M.funcs.items()):
+        if not fn.module.name.startswith("nixio.hdf5"):
+            continue
+        for t_ in _ast.walk(fn.node):
+            if not isinstance(t_, _ast.Try):
+                continue
+            mut = None
+            for b_ in t_.body:
+                for n_ in _ast.walk(b_):
+                    if isinstance(n_, _ast.Delete) and any(isinstance(x, _ast.Subscript) for x in n_.targets):
+                        mut = n_
+                    elif isinstance(n_, (_ast.Assign, _ast.AugAssign)) and any(
+                            isinstance(x, _ast.Subscript) for x in (n_.targets if isinstance(n_, _ast.Assign) else [n_.target])):
+                        mut = n_
+                    elif isinstance(n_, _ast.Call) and isinstance(n_.func, _ast.Attribute) and n_.func.attr in WR:
+                        mut = n_
+            if mut is None:
+                continue
+            n8 += 1
+            quiet = [h for h in t_.handlers if not any(isinstance(x, _ast.Raise) for s_ in h.body for x in _ast.walk(s_))]
+            rep.check(R8, "%s:try@%d" % (q.split(":")[-1], n8), not quiet,
+                      "%s catches %s around a mutation (line %d) and goes on: on a file opened read-only the refused write becomes a "
+                      "silent no-op instead of an error" % (q.split(":")[-1], _ast.unparse(quiet[0].type) if quiet and quiet[0].type else "everything",
+                                                           mut.lineno), site="%s:%d" % (fn.file, t_.lineno))
+    if not n8:
+        rep.ok(R8, "hdf5 layer", "no handler around a mutation")
+
+    # ---------------- R9 (shared with C02.R6): reads return the same results as in a writable session -- no lookup answers from a
+    # table kept for the session (whatever the mode that switches it on)
+    from .common import run_shared
+    from . import c02
+    run_shared(c02, M, rep, tier, {"C02.R6": "C11.R9"})
+
     # ---------------- R5
     ctx = Ctx(M)
     cg = ctx.cg
